@@ -218,6 +218,9 @@ class C03(Prop):
             case, tags = self.build(rng, tier, ips, bs, rng.choice([1, 2]), big=rng.choice([150, 400]) if not quick else 150,
                                     nq=60 if quick else 90)
             yield case, tags + ["large"]
+        # H: coordinates beyond 2^31
+        for i in range(4 if quick else 60):
+            yield self.huge_case(rng, i % 2)
         # D: more blocks than the cache limit
         if quick:
             yield self.reset_case(rng, 5003, 256, light=True)
@@ -226,6 +229,38 @@ class C03(Prop):
                 yield self.reset_case(rng, nb, bs, nc, comp, light=(nb > 5300))
             yield self.reset_case(rng, 5004, 256, fill=True)
             yield self.reset_case(rng, 5000, 64, fill=True)
+
+    def huge_case(self, rng, kind):
+        """chromosomes longer than 2^31 bases, values and query bounds on both sides of 2^31 and near 2^32:
+        positions are u32 in the format, so every comparison must be unsigned and 32 bits wide"""
+        T31 = 1 << 31; T32 = (1 << 32) - 1
+        names = ["chr1", "chrBig"] if rng.random() < 0.5 else ["chrBig"]
+        ips = rng.choice([1, 2, 3]); bs = rng.choice([2, 3, 256])
+        sizes = []; inp = []; hist = []
+        for nm in names:
+            if nm != "chrBig":
+                sizes.append([nm, 1000]); inp += [[nm, 10, 20, bbigen.f32bits(1.5)], [nm, 30, 40, bbigen.f32bits(2.0)]]
+                hist.append([0, nm, 0, 1000]); continue
+            length = rng.choice([T32, T32 - 5, T31 + 1000, 3000000000])
+            starts = sorted(set([100, 1000, T31 - 50, T31 - 10, T31, T31 + 10, T31 + 900, length - 400, length - 20] +
+                                [rng.randrange(0, length - 300) for _ in range(4)]))
+            items = []; last = 0
+            for st in starts:
+                if st < last or st + 1 > length: continue
+                ln = rng.choice([1, 5, 9, 200])
+                en = min(st + ln, length); items.append((st, en)); last = en
+            sizes.append([nm, length])
+            inp += [[nm, a, b, bbigen.f32bits(float((k % 50) + 1) / 8.0)] for k, (a, b) in enumerate(items)]
+            pts = sorted(set([0, length, T31 - 1, T31, T31 + 1] + [p for (a, b) in items for p in (a, b, max(a - 1, 0), min(b + 1, length))]))
+            hist.append([0, nm, 0, length])
+            for _ in range(30):
+                a = rng.choice(pts); b = rng.choice(pts)
+                if a > b: a, b = b, a
+                hist.append([0, nm, a, b])
+                if b - a <= 400:
+                    hist.append([1, nm, a, b])          # per-base arrays only over short ranges
+        o = [rng.choice([0, 0, 1]), ips, bs, 160, 10, [[rng.choice([1000, 100000])]], 1]
+        return sx([kind, o, sizes, inp, hist]), ["huge-coordinates", "ips=%d" % ips, "pass=%d" % (kind + 1)]
 
     def nontrivial(self, case, tags):
         c = parse_sx(case)
